@@ -456,7 +456,7 @@ mismatch between values and axes""".format(inferred, self.values.shape)
     # Internal constructor, useful for subclassing
     #
     @classmethod
-    def _constructor(cls, *args, **metadata):
+    def _constructor(cls, /, *args, **metadata):
         """ Internal API for the constructor: check whether a pre-defined class exists
 
         values        : array-like
@@ -473,7 +473,7 @@ mismatch between values and axes""".format(inferred, self.values.shape)
         # just check consistency between axes and values shape
 
         # the metadata is set on the new object instead of being passed on as keyword arguments: a key may
-        # well be the name of a parameter ('values', 'axes', 'dims', 'labels', 'dtype', 'copy', '_indexing' ...)
+        # well be the name of a parameter ('values', 'axes', 'dims', 'labels', 'dtype', 'copy', '_indexing', 'cls' ...)
         values = args[0]
         axes = args[1] if len(args) > 1 else metadata.pop('axes', None)
         obj = cls(values, axes)
